@@ -442,10 +442,13 @@ func (mr MeshReader) Read(reader io.Reader) (*modeling.Mesh, error) {
 		// Read data
 		scanner := bufio.NewScanner(reader)
 		for i := int64(0); i < vertexElement.Count; i++ {
-			scanner.Scan()
+			if !scanner.Scan() {
+				return nil, fmt.Errorf("can't read %q element %w", mr.AttributeElement, io.ErrUnexpectedEOF)
+			}
 
 			text := scanner.Text()
 			if text == "" {
+				i--
 				continue
 			}
 
@@ -580,7 +583,9 @@ func readAsciiFaceElement(element Element, scanner *bufio.Scanner) ([]int, []vec
 
 	var i int
 	for i < int(element.Count) {
-		scanner.Scan()
+		if !scanner.Scan() {
+			return nil, nil, fmt.Errorf("can't read %q element %w", element.Name, io.ErrUnexpectedEOF)
+		}
 		line := scanner.Text()
 
 		if line == "" {
